@@ -7,6 +7,7 @@ use crate::gen::program::{ProgGen, ProgInfo};
 use crate::model::isa::*;
 use crate::model::program::*;
 use crate::model::refasm::{self, RefResult};
+use crate::model::expr::E;
 use std::collections::HashMap;
 
 pub struct C02;
@@ -15,7 +16,43 @@ pub const BUDGETS: &[usize] = &[1, 2, 3, 4, 5, 6, 7, 8, 9, 10, 11, 12, 15, 20, 3
 
 pub fn gen_cascade(t: &mut Tape, max_items: usize) -> (Program, ProgInfo) {
     let isa = IsaGen { size_static: false }.gen(t);
-    ProgGen { max_items, allow_banks: t.chance(1, 3), allow_faults: false, family_bias: true }.gen(t, isa)
+    let shadow = t.chance(1, 5);
+    let mut isa = isa;
+    if shadow {
+        // a two-operand rule whose first parameter name will also be a label name
+        let mn = "mvq".to_string();
+        isa.blocks[0].rules.push(Rule {
+            mnemonic: mn,
+            ops: vec![
+                PatOp { wrap: Wrap::None, op: POp::Param { name: "p0".into(), ty: PType::U(8) } },
+                PatOp { wrap: Wrap::None, op: POp::Param { name: "p1".into(), ty: PType::U(8) } },
+            ],
+            prod: crate::gen::isa::concat_all(vec![crate::gen::isa::sized_lit(0x10, 8), E::Var("p0".into()), E::Var("p1".into())]),
+            size: 24,
+        });
+    }
+    let (mut prog, info) = ProgGen { max_items, allow_banks: t.chance(1, 3), allow_faults: false, family_bias: true }.gen(t, isa);
+    if shadow && !prog.items.iter().any(|i| matches!(i, Item::BankDef(_))) {
+        // somewhere in the program: a label named like the first parameter, then an instruction
+        // whose first operand is a literal and whose second operand is that label
+        let has_p0 = prog.items.iter().any(|i| matches!(i, Item::Label { name, .. } if name == "p0"));
+        let at = t.below(prog.items.len() + 1);
+        let ins = Item::Instr(Instr {
+            mnemonic: "mvq".into(),
+            ops: vec![
+                InsOp { wrap: Wrap::None, op: IOp::Expr(crate::gen::expr::lit_of(t.draw(4) as u64)) },
+                InsOp { wrap: Wrap::None, op: IOp::Word("p0".into()) },
+            ],
+        });
+        if has_p0 {
+            prog.items.insert(at, ins);
+        } else {
+            prog.items.insert(at, ins);
+            prog.items.insert(at, Item::Label { dots: 0, name: "p0".into() });
+            prog.items.insert(at, Item::Align(crate::gen::expr::lit_of(8)));
+        }
+    }
+    (prog, info)
 }
 
 /// sizes the assembler claims for every instruction item (spans are recorded in item order:
